@@ -27,9 +27,11 @@ pub trait Latch<P>: Deref<Target = P> {}
 impl<P> ReadLatch<P> {
     pub(crate) fn new(lock: &Arc<RwLock<P>>) -> Self {
         #[cfg(feature = "verif")]
-        crate::verif::sched::block_until(crate::verif::sched::site::READ_LATCH, || {
-            !lock.is_locked_exclusive()
-        });
+        crate::verif::sched::block_until_on(
+            crate::verif::sched::site::READ_LATCH,
+            Arc::as_ptr(lock) as usize,
+            || !lock.is_locked_exclusive(),
+        );
         Self(lock.read_arc())
     }
 }
@@ -49,9 +51,11 @@ pub(crate) struct WriteLatch<P>(ArcRwLockWriteGuard<RawRwLock, P>);
 impl<P> WriteLatch<P> {
     pub(crate) fn new(lock: &Arc<RwLock<P>>) -> Self {
         #[cfg(feature = "verif")]
-        crate::verif::sched::block_until(crate::verif::sched::site::WRITE_LATCH, || {
-            !lock.is_locked()
-        });
+        crate::verif::sched::block_until_on(
+            crate::verif::sched::site::WRITE_LATCH,
+            Arc::as_ptr(lock) as usize,
+            || !lock.is_locked(),
+        );
         Self(lock.write_arc())
     }
 }
@@ -147,9 +151,11 @@ where
         F: FnOnce(&mut [u8]) -> R,
     {
         #[cfg(feature = "verif")]
-        crate::verif::sched::block_until(crate::verif::sched::site::FRAME_BYTES_MUT, || {
-            !self.inner.is_locked()
-        });
+        crate::verif::sched::block_until_on(
+            crate::verif::sched::site::FRAME_BYTES_MUT,
+            Arc::as_ptr(&self.inner) as usize,
+            || !self.inner.is_locked(),
+        );
         let mut latch = self.inner.write();
         f(latch.as_mut())
     }
@@ -164,9 +170,11 @@ where
         F: FnOnce(&[u8]) -> R,
     {
         #[cfg(feature = "verif")]
-        crate::verif::sched::block_until(crate::verif::sched::site::FRAME_BYTES, || {
-            !self.inner.is_locked_exclusive()
-        });
+        crate::verif::sched::block_until_on(
+            crate::verif::sched::site::FRAME_BYTES,
+            Arc::as_ptr(&self.inner) as usize,
+            || !self.inner.is_locked_exclusive(),
+        );
         let latch = self.inner.read();
         f(latch.as_ref())
     }
